@@ -616,6 +616,15 @@ def run(ctx):
     check_class_exact_equality(ctx)
     check_determinism(ctx)
     check_ownership(ctx)
+    ctx.rule("C18.6", "no mutable allocation is shared between keys or positions (dict.fromkeys(keys, alloc), [alloc] * n): a write through one entry would show in all")
+    from .. import lints
+    ctx.control("C18.6", lints.control(), "shared-allocation lint fires on dict.fromkeys(keys, alloc) / [alloc] * n, silent on immutable values")
+    for name in sorted(ctx.prog.modules):
+        mod = ctx.prog.modules[name]
+        hits = lints.shared_allocations(mod.tree)
+        ctx.ob("C18.6", name, not hits, "no shared mutable allocation in %s" % name, loc=ctx.prog.loc(mod, hits[0][0]) if hits else None,
+               msg="; ".join(h[1] for h in hits))
+    ctx.floor("C18.6", 15)
     # controls of the alias domain
     x = S("self._get_score_cache")
     ctx.control("C18.1", alias_of(form.apply("self._apply_axis", [form.apply("self._get_score", [S("f"), S("i")]), S("axis"), S("k")])) == "cache"
